@@ -40,6 +40,14 @@ INVALID_VALUES = {
 }
 
 
+# Python values for a tag which does not exist yet: unrepresentable in their own default datatype ...
+BAD_PY = {"nan": float("nan"), "inf": float("inf"), "tab-string": "a\tb", "newline-string": "a\nb",
+          "int-array-out-of-range": [2 ** 40, 1], "non-finite-array": [1.5, float("inf")]}
+# ... and representable ones, with the documented default datatype
+GOOD_PY = {"int": (12, "i"), "str": ("hello", "Z"), "float": (2.5, "f"), "int-array": ([1, 2, 300], "B"),
+           "dict": ({"a": [1]}, "J"), "float-array": ([1.5, 2.0], "B"), "char": ("x", "Z")}
+
+
 def setup(ctx):
     hooks.RATE = 25
 
@@ -56,6 +64,11 @@ def cases(rng, tier, shard, nshards):
         elif r < 0.55:
             lines = HG.hostile_doc(rng)
             yield {"k": "mono", "lines": lines, "version": rng.choice([None, "gfa1", "gfa2"])}
+        elif r < 0.62:
+            # a new tag: assignments which are refused, then a valid value of another class
+            yield {"k": "assign-seq", "line": rng.choice([f[0] for f in FIELDS]), "tag": V.tagname(rng),
+                   "refused": [rng.choice(sorted(BAD_PY)) for _ in range(rng.randint(1, 2))],
+                   "then": rng.choice(sorted(GOOD_PY)), "vlevel": rng.randrange(4), "how": rng.choice(["set", "attr"])}
         else:
             i = rng.randrange(len(FIELDS))
             kind = FIELDS[i][3]
@@ -65,8 +78,61 @@ def cases(rng, tier, shard, nshards):
                    "how": rng.choice(["set", "attr"])}
 
 
+def run_assign_seq(case, ctx):
+    lvl, tag = case["vlevel"], case["tag"]
+    line = gfapy.Line(case["line"], vlevel=lvl)
+
+    def assign(v):
+        if case["how"] == "attr":
+            setattr(line, tag, v)
+        else:
+            line.set(tag, v)
+    for name in case["refused"]:
+        r = call(ctx, "assign (unrepresentable)", assign, BAD_PY[name])
+        ctx.count("assignments")
+        if r.ok:
+            # accepted below level 3 (the tag exists now, with that datatype): nothing to judge
+            if lvl >= 3:
+                ctx.violation("invalid-assignment-not-reported-at-level-3/new-tag/%s" % name,
+                              "%r.%s = %r at level 3" % (case["line"], tag, BAD_PY[name]))
+            ctx.count("seq_unrepresentable_accepted")
+            return
+    # every assignment so far was refused: the tag must still be undefined ...
+    g0 = call(ctx, "get", line.get, tag)
+    if not g0.ok or g0.value is not None or tag in line.tagnames:
+        ctx.violation("refused-assignment-leaves-tag/level%d" % lvl, "%r: after refused %r the tag %s reads %r"
+                      % (case["line"], case["refused"], tag, g0.value if g0.ok else g0.cls()))
+        return
+    # ... and a representable value of another class is accepted with its own default datatype
+    v, dt = GOOD_PY[case["then"]]
+    r = call(ctx, "assign (valid)", assign, v)
+    ctx.count("assignments")
+    ctx.count("seq_valid_after_refused")
+    cell = "%r: %s after refused %r (level %d, %s)" % (case["line"], case["then"], case["refused"], lvl, case["how"])
+    ctx.add("assign_cells", "seq/%s/%s/%d" % ("+".join(case["refused"]), case["then"], lvl))
+    ctx.nontriv(["seq", case["line"], case["refused"], case["then"], lvl, case["how"]])
+    if not r.ok:
+        ctx.violation("valid-assignment-refused/after-refused-%s/level%d/%s" % (case["then"], lvl, r.cls()),
+                      "%s: %s" % (cell, str(r.exc)[:200]))
+        return
+    d = call(ctx, "get_datatype", line.get_datatype, tag)
+    if not d.ok or d.value != dt:
+        ctx.violation("stale-datatype/%s-as-%s/level%d" % (case["then"], d.value if d.ok else d.cls(), lvl),
+                      "%s: datatype %r, documented default %r" % (cell, d.value if d.ok else None, dt))
+        return
+    for what, fn in (("validate_field", lambda: line.validate_field(tag)), ("validate", line.validate),
+                     ("str", lambda: str(line))):
+        rr = call(ctx, what, fn)
+        if not rr.ok or (what == "str" and "# INVALID" in rr.value):
+            ctx.violation("valid-assignment-rejected-later/after-refused/%s/level%d" % (what, lvl), "%s: %s -> %s"
+                          % (cell, what, rr.cls() if not rr.ok else rr.value))
+            return
+
+
 def run(case, ctx):
     k = case["k"]
+    if k == "assign-seq":
+        return run_assign_seq(case, ctx)
     if k == "levels":
         return run_levels(case, ctx)
     if k == "mono":
